@@ -263,9 +263,10 @@ func ruleFunnelOnce(r *Run) {
 		// (d) wg.Wait before returning
 		if path.Exit == "return" {
 			waited := false
-			for _, ev := range path.Events {
+			tl := topLevel(path)
+			for i, ev := range path.Events {
 				if ev.Kind == EvCall {
-					if f, ok := ev.Callee.(*types.Func); ok && f.FullName() == "(*sync.WaitGroup).Wait" && ev.Depth == 0 {
+					if f, ok := ev.Callee.(*types.Func); ok && f.FullName() == "(*sync.WaitGroup).Wait" && tl[i] {
 						waited = true
 					}
 				}
@@ -329,15 +330,16 @@ func ruleFunnelOnce(r *Run) {
 		path := &paths[pi]
 		r.at(path)
 		seenFunnel := false
-		for _, ev := range path.Events {
+		tl := topLevel(path)
+		for i, ev := range path.Events {
 			if ev.Kind == EvGuard && ev.GKind == GFor {
 				seenFunnel = false
 			}
 			if ev.Kind == EvCall && ev.Callee == hdisc {
 				seenFunnel = true
 			}
-			if ev.Kind == EvCall && ev.Call != nil && ev.Depth == 0 {
-				if id, ok := ast.Unparen(ev.Call.Fun).(*ast.Ident); ok && strings.HasPrefix(r.P.Canon(handle, id), "call:context.WithCancel(") {
+			if ev.Kind == EvCall && ev.Call != nil && tl[i] {
+				if id, ok := ast.Unparen(ev.Call.Fun).(*ast.Ident); ok && strings.HasPrefix(r.P.Canon(ev.Fn, id), "call:context.WithCancel(") {
 					r.CheckT("E5", handle.Name+":cancel-after-funnel", seenFunnel, ev.Pos, path, "the connection context is cancelled (ending all loops) only after the disconnect funnel ran")
 				}
 			}
@@ -400,9 +402,13 @@ func ruleFunnelOnce(r *Run) {
 	}
 	// G5: idle timer
 	nMsg, nIdle := 0, 0
-	reachesDispatch := func(ev Event) bool {
-		if ev.Kind != EvCall || ev.Call == nil || ev.Depth != 0 {
+	reachesDispatch := func(path *Path, tl []bool, i int) bool {
+		ev := path.Events[i]
+		if ev.Kind != EvCall || ev.Call == nil || !tl[i] {
 			return false
+		}
+		if i+1 < len(path.Events) && path.Events[i+1].Kind == EvEnter && path.Events[i+1].Helper && path.Events[i+1].Lit == nil && ev.Callee != hmsg {
+			return false // glue that was looked into: its own calls follow
 		}
 		if ev.Callee == hmsg {
 			return true
@@ -420,8 +426,9 @@ func ruleFunnelOnce(r *Run) {
 	for pi := range paths {
 		path := &paths[pi]
 		r.at(path)
+		tl := topLevel(path)
 		for i, ev := range path.Events {
-			if reachesDispatch(ev) {
+			if reachesDispatch(path, tl, i) {
 				nMsg++
 				reset := false
 				for j := i - 1; j >= 0; j-- {
@@ -817,7 +824,7 @@ func ruleWaitFor(r *Run) {
 				}
 				if reach[s.Fn] && s.Fn != nil {
 					// the send is reachable from the consumer's own code (same goroutine)
-					r.Check("F4", fmt.Sprintf("self-wait[%s]:send-in[%s]:consumer[%s]", name, s.Fn.Name, cons.Name), false, s.Pos,
+					r.Check("F4", fmt.Sprintf("self-wait[%s]:send-in[%s]:consumer[%s]", name, r.rootLabel(s.Fn), r.rootLabel(cons)), false, s.Pos,
 						"%s blocks sending into %s, and it is called from %s, the only goroutine that receives from that channel: once the buffer is full the goroutine waits for itself forever", s.Fn.Name, name, cons.Name)
 				}
 			}
@@ -839,7 +846,7 @@ func ruleWaitFor(r *Run) {
 				for lk, hmode := range s.Held {
 					nmode, wants := need[lk]
 					conflict := wants && (hmode == "W" || nmode == "W")
-					site := fmt.Sprintf("lock-wait[%s->%s]:send-in[%s]:consumer[%s]", lk, name, s.Fn.Name, cons.Name)
+					site := fmt.Sprintf("lock-wait[%s->%s]:send-in[%s]:consumer[%s]", lk, name, r.rootLabel(s.Fn), r.rootLabel(cons))
 					r.Check("F4", site, !conflict, s.Pos,
 						"%s is held (%s) across a blocking send into %s in %s; the channel's consumer %s itself takes %s (%s): when the buffer is full the sender waits for the consumer and the consumer waits for the lock", lk, hmode, name, s.Fn.Name, cons.Name, lk, nmode)
 					if !conflict {
@@ -914,8 +921,11 @@ func rulePanicContainment(r *Run) {
 				// every later call on the path that reaches the message dispatch must be panic-safe
 				for j := i + 1; j < len(path.Events); j++ {
 					pe := path.Events[j]
-					if pe.Kind != EvCall || pe.Call == nil || pe.Depth != 0 {
+					if pe.Kind != EvCall || pe.Call == nil {
 						continue
+					}
+					if j+1 < len(path.Events) && path.Events[j+1].Kind == EvEnter && path.Events[j+1].Helper && path.Events[j+1].Lit == nil {
+						continue // glue that was looked into: the calls it makes follow on the path
 					}
 					callees, _ := d.Callees(r.P, pe.Call)
 					for _, g := range callees {
@@ -1132,7 +1142,11 @@ type recoverSite struct {
 // hasChanOps: the function (or a literal / looked-into helper of its package is not considered
 // here: helpers are analysed on their own) contains a channel send, receive, close or select.
 func hasChanOps(fn *Func) bool {
-	if fn.Body == nil {
+	return hasChanOpsDepth(fn, 0)
+}
+
+func hasChanOpsDepth(fn *Func, depth int) bool {
+	if fn.Body == nil || depth > 3 {
 		return false
 	}
 	found := false
@@ -1148,6 +1162,12 @@ func hasChanOps(fn *Func) bool {
 		case *ast.CallExpr:
 			if b, ok := calleeObj(info, v).(*types.Builtin); ok && b.Name() == "close" {
 				found = true
+			}
+			// glue of the repository that is looked into
+			if f, ok := calleeObj(info, v).(*types.Func); ok && f.Pkg() != nil && isRepoPkg(f.Pkg()) && fn.progFuncs != nil {
+				if g := fn.progFuncs[f]; g != nil && g != fn && (!f.Exported() || !knownAPI[g.Name]) && hasChanOpsDepth(g, depth+1) {
+					found = true
+				}
 			}
 		}
 		return !found
@@ -1180,9 +1200,56 @@ func ruleMainLineBlocking(r *Run) {
 	sort.Slice(fns, func(i, j int) bool { return fns[i].Name < fns[j].Name })
 	seen := map[token.Pos]bool{}
 	mainArms, designed, total := 0, 0, 0
+	// the connection loop's own select: the select statement one of whose arms receives the next client
+	// message from the scheduler's queue — wherever that statement lives (Handle, or a loop function split off it)
+	queue := r.P.LookupField(pkgHCWS, "scheduler", "queue")
+	mainComm := map[token.Pos]bool{}
+	for _, fn := range fns {
+		if fn.Body == nil {
+			continue
+		}
+		ast.Inspect(fn.Body, func(nd ast.Node) bool {
+			ss, ok := nd.(*ast.SelectStmt)
+			if !ok {
+				return true
+			}
+			isMain := false
+			var comms []token.Pos
+			for _, cl := range ss.Body.List {
+				cc := cl.(*ast.CommClause)
+				if cc.Comm == nil {
+					continue
+				}
+				comms = append(comms, cc.Comm.Pos())
+				var rx ast.Expr
+				switch st := cc.Comm.(type) {
+				case *ast.ExprStmt:
+					rx = st.X
+				case *ast.AssignStmt:
+					if len(st.Rhs) == 1 {
+						rx = st.Rhs[0]
+					}
+				}
+				if u, ok := ast.Unparen(rx).(*ast.UnaryExpr); ok && u.Op == token.ARROW {
+					if fv, _ := r.chanField(fn, u.X); fv != nil && fv == queue {
+						isMain = true
+					}
+				}
+			}
+			if isMain {
+				for _, p := range comms {
+					mainComm[p] = true
+				}
+			}
+			return true
+		})
+	}
 	for _, fn := range fns {
 		if fn.Body == nil || !hasChanOps(fn) {
 			continue
+		}
+		if fn.Obj != nil && r.P.isGlue(fn.Obj) && !r.attributed(fn)[fn.Name] && len(r.E.Paths(fn)) <= 600 {
+			continue // glue: its channel operations are seen in the paths of the functions it acts for
 		}
 		paths := r.Paths(fn)
 		r.Analysed(fn, len(paths))
@@ -1207,7 +1274,7 @@ func ruleMainLineBlocking(r *Run) {
 				switch {
 				case !ev.Send && r.drainGuarded(path, ev):
 					designed++ // `for len(ch) != 0 { <-ch }`: the receive only runs while the buffer holds a value
-				case ev.InSelect && ev.Fn.root().origOrSelf() == handle && ev.Depth == 0:
+				case ev.InSelect && (mainComm[ev.Pos] || (ev.Node != nil && mainComm[ev.Node.Pos()])):
 					mainArms++ // the loop's own select: the one place the main line waits
 				case ev.Send && fv == sendChan:
 					designed++
@@ -1266,4 +1333,49 @@ func (r *Run) drainGuarded(path *Path, ev Event) bool {
 		return r.P.Canon(pe.Fn, call.Args[0]) == want
 	}
 	return false
+}
+
+// topLevel: for each event of a path, whether it belongs to the analysed function itself or to glue it
+// looks into (helper brackets) — as opposed to the body of a closure run by a combinator.
+func topLevel(path *Path) []bool {
+	out := make([]bool, len(path.Events))
+	var stack []bool // true = helper bracket
+	closures := 0
+	for i, ev := range path.Events {
+		switch ev.Kind {
+		case EvEnter:
+			out[i] = closures == 0
+			stack = append(stack, ev.Helper && ev.Lit == nil)
+			if !(ev.Helper && ev.Lit == nil) {
+				closures++
+			}
+			continue
+		case EvExit:
+			if n := len(stack); n > 0 {
+				if !stack[n-1] {
+					closures--
+				}
+				stack = stack[:n-1]
+			}
+			out[i] = closures == 0
+			continue
+		}
+		out[i] = closures == 0
+	}
+	return out
+}
+
+// rootLabel: a stable name for the function on whose behalf fn runs (site keys of findings must not
+// change when a function is split): the single function fn is attributed to, else fn itself.
+func (r *Run) rootLabel(fn *Func) string {
+	if fn == nil {
+		return "?"
+	}
+	at := r.attributed(fn)
+	if len(at) == 1 {
+		for k := range at {
+			return k
+		}
+	}
+	return fn.root().origOrSelf().Name
 }
